@@ -539,7 +539,80 @@ macro_rules! with_cap {
     };
 }
 
+/// A completely FULL buffer of capacity usize::MAX (unit elements; built in O(1) from an array): the
+/// only way to reach `len == usize::MAX`, where `Included(usize::MAX)` / `Excluded(usize::MAX)` bounds
+/// and `index + 1` arithmetic sit exactly on the overflow boundary.  Returns textual problems.
+pub fn huge_full_probes() -> Vec<String> {
+    use std::ops::Bound::*;
+    const M: usize = usize::MAX;
+    let mut probs = vec![];
+    let mut must = |name: &str, want_panic: bool, f: &mut dyn FnMut() -> Result<(), String>| {
+        let r = catch_unwind(AssertUnwindSafe(|| f()));
+        match (r, want_panic) {
+            (Err(_), true) => {}
+            (Ok(Ok(())), false) => {}
+            (Err(p), false) => probs.push(format!("{}: panicked ({}) but must not", name, crate::panic_text(&p))),
+            (Ok(Ok(())), true) => probs.push(format!("{}: returned normally but the documentation promises a panic", name)),
+            (Ok(Err(e)), _) => probs.push(format!("{}: {}", name, e)),
+        }
+    };
+    let mut b: Box<CircularBuffer<M, ()>> = Box::new(CircularBuffer::from([(); M]));
+    must("from([(); usize::MAX])", false, &mut || if b.len() == M && b.is_full() && !b.is_empty() { Ok(()) } else { Err(format!("len {} is_full {}", b.len(), b.is_full())) });
+    must("range(..=usize::MAX)", true, &mut || { let _ = b.range(..=M); Ok(()) });
+    must("range((Excluded(usize::MAX), Unbounded))", true, &mut || { let _ = b.range((Excluded(M), Unbounded)); Ok(()) });
+    must("range_mut(..=usize::MAX)", true, &mut || { let _ = b.range_mut(..=M); Ok(()) });
+    must("range(..usize::MAX)", false, &mut || if b.range(..M).len() == M { Ok(()) } else { Err("wrong len".into()) });
+    must("range(..)", false, &mut || if b.range(..).len() == M { Ok(()) } else { Err("wrong len".into()) });
+    must("range(usize::MAX..)", false, &mut || if b.range(M..).len() == 0 { Ok(()) } else { Err("wrong len".into()) });
+    must("range(..=usize::MAX-1)", false, &mut || if b.range(..=M - 1).len() == M { Ok(()) } else { Err("wrong len".into()) });
+    must("range((Excluded(usize::MAX-1), Unbounded))", false, &mut || if b.range((Excluded(M - 1), Unbounded)).len() == 0 { Ok(()) } else { Err("wrong len".into()) });
+    must("drain(..=usize::MAX)", true, &mut || { let _ = b.drain(..=M); Ok(()) });
+    must("drain((Excluded(usize::MAX), Unbounded))", true, &mut || { let _ = b.drain((Excluded(M), Unbounded)); Ok(()) });
+    must("still full after the rejected drains", false, &mut || if b.len() == M { Ok(()) } else { Err(format!("len {}", b.len())) });
+    must("get / nth_back at the ends", false, &mut || {
+        if b.get(M - 1).is_some() && b.get(M).is_none() && b.nth_back(M - 1).is_some() && b.nth_back(M).is_none() && b.front().is_some() && b.back().is_some() {
+            Ok(())
+        } else {
+            Err("presence wrong".into())
+        }
+    });
+    must("index(usize::MAX)", true, &mut || { let _ = &b[M]; Ok(()) });
+    must("swap(0, usize::MAX-1)", false, &mut || { b.swap(0, M - 1); Ok(()) });
+    must("swap(0, usize::MAX)", true, &mut || { b.swap(0, M); Ok(()) });
+    must("push_back on full", false, &mut || if b.push_back(()).is_some() && b.len() == M { Ok(()) } else { Err("wrong".into()) });
+    must("push_front on full", false, &mut || if b.push_front(()).is_some() && b.len() == M { Ok(()) } else { Err("wrong".into()) });
+    must("try_push_back on full", false, &mut || if b.try_push_back(()).is_err() && b.len() == M { Ok(()) } else { Err("wrong".into()) });
+    must("pop_back / push_back", false, &mut || if b.pop_back().is_some() && b.len() == M - 1 && !b.is_full() && b.push_back(()).is_none() && b.is_full() { Ok(()) } else { Err("wrong".into()) });
+    must("pop_front / try_push_front", false, &mut || if b.pop_front().is_some() && b.len() == M - 1 && b.try_push_front(()).is_ok() && b.is_full() { Ok(()) } else { Err("wrong".into()) });
+    must("remove(usize::MAX-1) / remove(usize::MAX)", false, &mut || if b.remove(M).is_none() && b.remove(M - 1).is_some() && b.len() == M - 1 && b.push_back(()).is_none() { Ok(()) } else { Err("wrong".into()) });
+    must("swap_remove_back(0)", false, &mut || if b.swap_remove_back(0).is_some() && b.len() == M - 1 && b.push_front(()).is_none() { Ok(()) } else { Err("wrong".into()) });
+    must("drain(usize::MAX-2..) consumed from the back", false, &mut || {
+        let mut d = b.drain(M - 2..);
+        let ok = d.len() == 2 && d.next_back().is_some() && d.next().is_some() && d.next().is_none();
+        drop(d);
+        if ok && b.len() == M - 2 { Ok(()) } else { Err(format!("len {}", b.len())) }
+    });
+    must("extend_from_slice(2) refills", false, &mut || { b.extend_from_slice(&[(), ()]); if b.is_full() { Ok(()) } else { Err(format!("len {}", b.len())) } });
+    must("truncate_back(usize::MAX-3) / truncate_front(usize::MAX-5)", false, &mut || { b.truncate_back(M - 3); b.truncate_front(M - 5); if b.len() == M - 5 { Ok(()) } else { Err(format!("len {}", b.len())) } });
+    must("as_slices lengths", false, &mut || { let (x, y) = b.as_slices(); if x.len().checked_add(y.len()) == Some(M - 5) { Ok(()) } else { Err("wrong".into()) } });
+    must("clear", false, &mut || { b.clear(); if b.is_empty() { Ok(()) } else { Err("not empty".into()) } });
+    probs
+}
+
 pub fn c19_check(cap_idx: usize, o: &Opts, rep: &mut Report) {
+    if cap_idx == 0 && o.shard.0 == 0 {
+        let probs = huge_full_probes();
+        rep.transitions += 30;
+        rep.validated += 30;
+        rep.count("full_usize_max_probes", 30);
+        for p in probs {
+            rep.violation(Violation {
+                sig: format!("cap=usize::MAX:full:{}", p.split(':').next().unwrap_or("").replace(' ', "_")),
+                detail: format!("completely full CircularBuffer<usize::MAX, ()>: {}", p),
+                replay: ReplayCase { n: 0, ctor: "new".into(), recipe: "0,0".into(), filling: "none".into(), act: "huge-full".into(), fault: "none".into(), extra: String::new() },
+            });
+        }
+    }
     with_cap!(cap_idx, enumerate, o, rep, cap_idx)
 }
 
@@ -548,6 +621,13 @@ fn replay_one<const N: usize, const R: usize>(prefix: (u8, usize), seq: &[ZAct])
 }
 
 pub fn replay_c19(c: &Case) -> Result<i32, String> {
+    if c.act == "huge-full" {
+        let probs = huge_full_probes();
+        for p in &probs {
+            println!("VIOLATION REPRODUCED: {}", p);
+        }
+        return Ok(if probs.is_empty() { 0 } else { 1 });
+    }
     let (a, b) = c.recipe.split_once(',').ok_or("bad prefix")?;
     let prefix = (a.parse::<u8>().map_err(|_| "bad prefix")?, b.parse::<usize>().map_err(|_| "bad prefix")?);
     let seq: Vec<ZAct> = c.act.split(';').filter(|s| !s.trim().is_empty()).map(|s| ZAct::parse(s.trim())).collect::<Option<Vec<_>>>().ok_or("bad sequence")?;
